@@ -7,26 +7,23 @@ def blist(b):
 
 
 def emit(w, src, must):
-    emit_codes(w, src, must)
-    emit_timers(w, src, must)
-    emit_guards(w, src, must)
-    emit_stun(w, src, must)
-    emit_sdp(w, src, must)
-    emit_sip(w, src, must)
+    for _, fn in SECTIONS:
+        fn(w, src, must)
 
 
 def emit_timers(w, src, must):
     t = src("crates/sip-ua/src/invite/timer.rs")
     subs = re.findall(r"saturating_sub\((\d+)\)", t)
     adds = re.findall(r"saturating_add\((\d+)\)", t)
-    must(len(subs) == 2 and len(adds) == 2 and len(set(subs + adds)) == 1, "session timer margins (two saturating_sub / two saturating_add with one value) in invite/timer.rs")
+    must(len(subs) >= 1 and len(adds) >= 1 and len(set(subs + adds)) == 1, "session timer margins (saturating_sub / saturating_add with one value) in invite/timer.rs")
     w("(* session-timer safety margin (seconds) and the acceptor's default interval, sip-ua/src/invite/timer.rs *)")
     w("Definition se_margin_s : N := %s." % subs[0])
     m = must(re.search(r"interval_secs: (\d+),", t), "default session interval")
     w("Definition se_default_interval_s : N := %s." % m.group(1))
     r = src("crates/sip-ua/src/register/mod.rs")
-    m1 = must(re.search(r"period\.max\(Duration::from_secs\((\d+)\)\)", r), "register minimum period")
-    m2 = must(re.search(r"period - Duration::from_secs\((\d+)\)", r), "register margin")
+    m1 = must(re.search(r"\w+\.max\(Duration::from_secs\((\d+)\)\)", r), "register minimum period")
+    fn_body = r[r.index("fn create_reg_interval"):]
+    m2 = must(re.search(r"-\s*Duration::from_secs\((\d+)\)", fn_body), "register margin")
     w("(* registration refresh: period = max(lifetime, reg_min_s) - reg_margin_s, sip-ua/src/register/mod.rs *)")
     w("Definition reg_min_s : N := %s." % m1.group(1))
     w("Definition reg_margin_s : N := %s." % m2.group(1))
@@ -48,7 +45,7 @@ def emit_guards(w, src, must):
     so that the unguarded form yields a model whose totality theorem fails instead of a translator error"""
     t = src("crates/sip-core/src/transport/parse.rs")
     body = t[t.index("fn parse_complete_sip"):]
-    checked = bool(re.search(r"head_end\s*\.checked_add\(len\.0\)", body)) and not re.search(r"head_end \+ len\.0", body)
+    checked = bool(re.search(r"head_end\s*\.checked_add\(", body)) and not re.search(r"head_end\s*\+\s*\w", body)
     w("(* parse_complete_sip computes the announced body end with checked_add (sip-core/src/transport/parse.rs) *)")
     w("Definition dg_body_end_checked : bool := %s." % ("true" if checked else "false"))
     l = src("crates/sip-core/src/lib.rs")
@@ -94,11 +91,11 @@ def emit_stun(w, src, must):
     dec = fp[fp.index("fn decode"):fp.index("fn encode")]
     w("Definition stun_fp_excludes_own_header : bool := %s." % ("true" if re.search(r"buffer\(\)\[\.\.attr\.begin - 4\]", dec) else "false"))
     cl = src("crates/stun/src/lib.rs")
-    r = must(re.search(r"for _ in 0\.\.(\d+) \{", cl), "STUN retry count")
-    d = must(re.search(r"let mut delta = Duration::from_millis\((\d+)\);", cl), "STUN initial timeout")
-    must("delta *= 2;" in cl, "STUN timeout doubling")
+    r = must(re.search(r"for _\w* in 0\.\.(\d+)(?:u32|usize)? \{", cl), "STUN retry count")
+    d = must(re.search(r"let mut (\w+) = Duration::from_millis\((\d+)\);", cl), "STUN initial timeout")
+    must(re.search(r"\b%s \*= 2\b" % re.escape(d.group(1)), cl), "STUN timeout doubling")
     w("Definition stun_attempts : N := %s." % r.group(1))
-    w("Definition stun_initial_ms : N := %s." % d.group(1))
+    w("Definition stun_initial_ms : N := %s." % d.group(2))
     pr = src("crates/stun-types/src/parse.rs")
     w("Definition stun_trim_only_variable : bool := %s." % ("true" if "trimmed_end" in pr and re.search(r"end: value_end,", pr) else "false"))
     w("")
@@ -176,3 +173,17 @@ def emit_sip(w, src, must):
     w("Definition sip_send_replaces_content_length : bool := %s." % ("true" if len(re.findall(
         r"headers\.remove\(&Name::CONTENT_LENGTH\);\s*message\s*\.msg\s*\.headers\s*\.insert\(Name::CONTENT_LENGTH, message\.msg\.body\.len\(\)\.to_string\(\)\);", ep)) == 2 else "false"))
     w("")
+
+
+SECTIONS = [("codes", emit_codes), ("timers", emit_timers), ("guards", emit_guards), ("stun", emit_stun), ("sdp", emit_sdp), ("sip", emit_sip)]
+
+# which properties' models read which section of Gen/Tables.v
+SECTION_USERS = {
+    "tsx": ["C04", "C05", "C06", "C07", "C12", "C13", "C16"],
+    "codes": ["C09"],
+    "timers": ["C17", "C02"],
+    "guards": ["C02", "C03", "C08", "C10"],
+    "stun": ["C20", "C16"],
+    "sdp": ["C19"],
+    "sip": ["C01"],
+}
